@@ -1728,7 +1728,9 @@ class Interp:
             if pre is not None:
                 return self.call_function(st, self.facts.prelude().functions[pre[0]], pre[1], {}, n, tree)
             if nm == "itertools.chain" and not kwargs:
-                return self.new_list([("s", a) for a in args], n, tree)
+                r_ = self.new_list([("s", a) for a in args], n, tree)
+                self.obj(r_).one_shot = "itertools.chain"       # its elements in order - but they can be walked only once
+                return r_
             if nm == "functools.partial" and args:
                 return ("partial", args[0], tuple(args[1:]), tuple(sorted(kwargs.items())))
             if nm in ("operator.attrgetter", "operator.itemgetter") and len(args) == 1 and is_const(args[0]) and not kwargs:
